@@ -1,4 +1,691 @@
-(* C09 — lemmas about Model/Shrink.v (work in progress). *)
-From Coq Require Import List NArith ZArith Bool Lia.
-From T38 Require Import Base.Bytes Base.SMap Model.Shrink.
+(* C09 — lemmas about Model/Shrink.v.
+
+   Contents
+     1. order / list / sorted-map helpers (ascend_from, firstn/skipn of sorted lists)
+     2. exec / replay: pointwise effect of a command ("touch"), well-formedness
+     3. characterisation of the batch scans and of one rewrite step (step_cases)
+     4. T1/T2: the new file (snapshot ++ shrinklog) replays to the live dataset (no RENAME)
+     5. T5: the records are emitted in strictly increasing (key,id) order (all schedules), and
+        in the quiescent case are exactly the objects of the dataset
+     6. T3: refutations with RENAME
+     7. T4: crash points of the final section
+     8. T6: termination of the quiescent run *)
+From Coq Require Import List NArith ZArith Bool Lia Sorted.
+From Coq Require Import ZifyN ZifyNat ZifyBool.
+From T38 Require Import Base.Bytes Base.SMap Gen.Consts Model.Shrink.
 Import ListNotations.
+Local Open Scope nat_scope.
+
+Definition wf (s : st) : Prop := msorted s /\ Forall (fun kc => msorted (snd kc)) s.
+Definition same_data (a b : st) : Prop := forall k i, lookup k i a = lookup k i b.
+
+(* ------------------------------------------------------------------ 1. helpers *)
+
+Lemma ltb_false_leb a b : bytes_ltb a b = false <-> bytes_leb b a = true.
+Proof.
+  unfold bytes_ltb, bytes_leb. rewrite (bytes_cmp_antisym a b).
+  destruct (bytes_cmp a b); cbn; split; congruence.
+Qed.
+
+Lemma leb_cases a b : bytes_leb a b = true -> a = b \/ bytes_ltb a b = true.
+Proof.
+  unfold bytes_leb, bytes_ltb. destruct (bytes_cmp a b) eqn:E; intros H.
+  - left. apply bytes_cmp_eq; exact E.
+  - right; reflexivity.
+  - discriminate.
+Qed.
+
+Lemma leb_ltb_trans a b c : bytes_leb a b = true -> bytes_ltb b c = true -> bytes_ltb a c = true.
+Proof. intros H1 H2. destruct (leb_cases _ _ H1) as [->|H]; [exact H2 | eapply ltb_trans; eauto]. Qed.
+
+Lemma ltb_leb_trans a b c : bytes_ltb a b = true -> bytes_leb b c = true -> bytes_ltb a c = true.
+Proof. intros H1 H2. destruct (leb_cases _ _ H2) as [<-|H]; [exact H1 | eapply ltb_trans; eauto]. Qed.
+
+Lemma leb_nil i : bytes_leb [] i = true.
+Proof. destruct i; reflexivity. Qed.
+
+Lemma ltb_leb_contra a b : bytes_ltb a b = true -> bytes_leb b a = true -> False.
+Proof. intros H1 H2. apply ltb_false_leb in H2. congruence. Qed.
+
+Lemma ltb_nil_false a : bytes_ltb a [] = false.
+Proof. destruct a; reflexivity. Qed.
+
+(* StronglySorted and append *)
+Lemma SS_app_inv {A} (R : A -> A -> Prop) (a b : list A) :
+  StronglySorted R (a ++ b) ->
+  StronglySorted R a /\ StronglySorted R b /\ (forall x y, In x a -> In y b -> R x y).
+Proof.
+  induction a as [|x a IH]; cbn; intros H.
+  - split; [constructor|]. split; [exact H|]. intros ? ? [].
+  - apply StronglySorted_inv in H. destruct H as [H1 H2]. destruct (IH H1) as [Ha [Hb Hab]].
+    apply Forall_app in H2. destruct H2 as [H2a H2b]. split; [constructor; assumption|].
+    split; [exact Hb|]. intros x' y [->|Hx] Hy.
+    + rewrite Forall_forall in H2b. apply H2b; exact Hy.
+    + apply Hab; assumption.
+Qed.
+
+Lemma SS_app {A} (R : A -> A -> Prop) (a b : list A) :
+  StronglySorted R a -> StronglySorted R b -> (forall x y, In x a -> In y b -> R x y) ->
+  StronglySorted R (a ++ b).
+Proof.
+  induction a as [|x a IH]; cbn; intros Ha Hb Hab; [exact Hb|].
+  apply StronglySorted_inv in Ha. destruct Ha as [Ha Hx]. constructor.
+  - apply IH; [exact Ha | exact Hb|]. intros; apply Hab; [right|]; assumption.
+  - apply Forall_app. split; [exact Hx|]. rewrite Forall_forall. intros y Hy. apply Hab; [left; reflexivity | exact Hy].
+Qed.
+
+Lemma SS_map {A B} (f : A -> B) (R : A -> A -> Prop) (S : B -> B -> Prop) (l : list A) :
+  (forall x y, R x y -> S (f x) (f y)) -> StronglySorted R l -> StronglySorted S (map f l).
+Proof.
+  intros HRS H. induction H as [|x l Hl IH Hx]; cbn; constructor; [exact IH|].
+  rewrite Forall_forall in *. intros y Hy. apply in_map_iff in Hy. destruct Hy as [z [<- Hz]].
+  apply HRS. apply Hx; exact Hz.
+Qed.
+
+(* a strictly sorted list cut at n: the part before, the part after, the first of the part after *)
+Lemma sorted_firstn (l : list bytes) n : sorted_keys l -> sorted_keys (firstn n l).
+Proof. intros H. unfold sorted_keys in *. rewrite <- (firstn_skipn n l) in H. apply SS_app_inv in H. tauto. Qed.
+
+Lemma sorted_skipn (l : list bytes) n : sorted_keys l -> sorted_keys (skipn n l).
+Proof. intros H. unfold sorted_keys in *. rewrite <- (firstn_skipn n l) in H. apply SS_app_inv in H. tauto. Qed.
+
+Lemma sorted_cut_lt (l : list bytes) n y t x :
+  sorted_keys l -> skipn n l = y :: t -> In x (firstn n l) -> bytes_ltb x y = true.
+Proof.
+  intros H E Hx. unfold sorted_keys in H. rewrite <- (firstn_skipn n l) in H. apply SS_app_inv in H.
+  destruct H as [_ [_ H]]. apply H; [exact Hx|]. rewrite E. left; reflexivity.
+Qed.
+
+Lemma sorted_cut_ge (l : list bytes) n y t x :
+  sorted_keys l -> skipn n l = y :: t -> In x l -> In x (firstn n l) \/ bytes_leb y x = true.
+Proof.
+  intros H E Hx. rewrite <- (firstn_skipn n l) in Hx. apply in_app_iff in Hx. destruct Hx as [Hx|Hx]; [left; exact Hx|].
+  right. apply (sorted_skipn l n) in H. rewrite E in *. destruct Hx as [->|Hx]; [apply bytes_leb_refl|].
+  apply StronglySorted_inv in H. destruct H as [_ H]. rewrite Forall_forall in H. apply bytes_ltb_leb. apply H; exact Hx.
+Qed.
+
+Lemma skipn_nil_firstn {A} n (l : list A) : skipn n l = [] -> firstn n l = l.
+Proof. intros E. rewrite <- (firstn_skipn n l) at 2. rewrite E, app_nil_r. reflexivity. Qed.
+
+Lemma skipn_head_in {A} n (l : list A) y t : skipn n l = y :: t -> In y l.
+Proof. intros E. rewrite <- (firstn_skipn n l), E. apply in_app_iff. right; left; reflexivity. Qed.
+
+Lemma firstn_in {A} n (l : list A) x : In x (firstn n l) -> In x l.
+Proof. intros H. rewrite <- (firstn_skipn n l). apply in_app_iff. left; exact H. Qed.
+
+(* ascend_from over a sorted map *)
+Lemma ascend_from_In {V} p (m : smap V) k v :
+  In (k, v) m -> bytes_leb p k = true -> In (k, v) (ascend_from p m).
+Proof.
+  induction m as [|[k' v'] r IH]; cbn; [tauto|]. intros Hin Hle.
+  destruct (bytes_ltb k' p) eqn:E; [|exact Hin].
+  destruct Hin as [Heq|Hin]; [|apply IH; assumption].
+  inversion Heq; subst. exfalso. eapply ltb_leb_contra; eauto.
+Qed.
+
+Lemma ascend_from_incl {V} p (m : smap V) x : In x (ascend_from p m) -> In x m.
+Proof.
+  induction m as [|[k' v'] r IH]; cbn; [tauto|].
+  destruct (bytes_ltb k' p); [intros H; right; apply IH; exact H | tauto].
+Qed.
+
+Lemma ascend_from_sorted {V} p (m : smap V) : msorted m -> msorted (ascend_from p m).
+Proof.
+  induction m as [|[k' v'] r IH]; cbn; intros H; [exact H|].
+  destruct (bytes_ltb k' p); [apply IH; eapply msorted_tail; exact H | exact H].
+Qed.
+
+Lemma ascend_from_ge {V} p (m : smap V) :
+  msorted m -> Forall (fun k => bytes_leb p k = true) (keys (ascend_from p m)).
+Proof.
+  induction m as [|[k' v'] r IH]; cbn; intros H; [constructor|].
+  destruct (bytes_ltb k' p) eqn:E; [apply IH; eapply msorted_tail; exact H|].
+  apply ltb_false_leb in E. apply msorted_inv in H. destruct H as [_ H]. cbn. constructor; [exact E|].
+  rewrite Forall_forall in *. intros x Hx. apply bytes_ltb_leb. eapply leb_ltb_trans; [exact E | apply H; exact Hx].
+Qed.
+
+Lemma in_keys_get {V} k (m : smap V) : In k (keys m) -> exists v, get k m = Some v.
+Proof.
+  induction m as [|[k' v'] r IH]; cbn; [tauto|]. intros [->|H].
+  - rewrite bytes_eqb_refl. eexists; reflexivity.
+  - destruct (bytes_eqb k k'); [eexists; reflexivity | apply IH; exact H].
+Qed.
+
+(* ------------------------------------------------------------------ 2. exec / replay *)
+
+Lemma lookup_nil k i : lookup k i [] = None.
+Proof. reflexivity. Qed.
+
+Lemma lookup_set_same k c s i : lookup k i (set k c s) = get i c.
+Proof. unfold lookup. rewrite get_set_same. reflexivity. Qed.
+
+Lemma lookup_set_other k k' c s i : k <> k' -> lookup k i (set k' c s) = lookup k i s.
+Proof. intros H. unfold lookup. rewrite get_set_other by exact H. reflexivity. Qed.
+
+Lemma lookup_del_same k s i : msorted s -> lookup k i (del k s) = None.
+Proof. intros H. unfold lookup. rewrite get_del_same by exact H. reflexivity. Qed.
+
+Lemma lookup_del_other k k' s i : k <> k' -> lookup k i (del k' s) = lookup k i s.
+Proof. intros H. unfold lookup. rewrite get_del_other by exact H. reflexivity. Qed.
+
+Lemma wf_nil : wf [].
+Proof. split; constructor. Qed.
+
+Lemma wf_get s k col : wf s -> get k s = Some col -> msorted col.
+Proof. intros [_ HF] Hg. exact (Forall_get _ _ _ _ HF Hg). Qed.
+
+Lemma lookup_some s k i v : lookup k i s = Some v -> exists col, get k s = Some col /\ get i col = Some v.
+Proof. unfold lookup. destruct (get k s) as [col|]; [|discriminate]. intros H. exists col. auto. Qed.
+
+Lemma exec_wf s c : wf s -> wf (fst (exec s c)).
+Proof.
+  intros Hwf. pose proof Hwf as [Hs HF]. destruct c as [k i v|k i|k|a b|]; cbn.
+  - split; [apply msorted_set; exact Hs|]. apply Forall_set; [exact HF|]. cbn. apply msorted_set.
+    destruct (get k s) eqn:E; [eapply wf_get; eauto | apply msorted_nil].
+  - destruct (get k s) as [col|] eqn:E; [|exact Hwf]. destruct (get i col) eqn:Ei; [|exact Hwf]. cbn.
+    destruct (del i col) eqn:Ed.
+    + split; [apply msorted_del; exact Hs | apply Forall_del; exact HF].
+    + rewrite <- Ed. split; [apply msorted_set; exact Hs|]. apply Forall_set; [exact HF|]. cbn.
+      apply msorted_del. eapply wf_get; eauto.
+  - destruct (get k s) eqn:E; [|exact Hwf]. cbn. split; [apply msorted_del; exact Hs | apply Forall_del; exact HF].
+  - destruct (get a s) as [col|] eqn:E; [|exact Hwf]. cbn. split.
+    + apply msorted_set, msorted_del, msorted_del; exact Hs.
+    + apply Forall_set; [apply Forall_del, Forall_del; exact HF|]. cbn. eapply wf_get; eauto.
+  - apply wf_nil.
+Qed.
+
+Lemma exec_not_logged s c : logged (snd (exec s c)) = false -> fst (exec s c) = s.
+Proof.
+  destruct c as [k i v|k i|k|a b|]; cbn; try discriminate.
+  - destruct (get k s) as [col|]; [|reflexivity]. destruct (get i col); [discriminate | reflexivity].
+  - destruct (get k s); [discriminate | reflexivity].
+  - destruct (get a s); [discriminate | reflexivity].
+Qed.
+
+Definition nr_cmd (c : cmd) : bool := match c with CRename _ _ => false | _ => true end.
+
+(* the effect of a (non-RENAME) command on the object (k,i): None = untouched,
+   Some r = afterwards the lookup is r whatever it was before *)
+Definition touch (c : cmd) (k i : bytes) : option (option val) :=
+  match c with
+  | CSet k' i' v => if bytes_eqb k k' && bytes_eqb i i' then Some (Some v) else None
+  | CDel k' i' => if bytes_eqb k k' && bytes_eqb i i' then Some None else None
+  | CDrop k' => if bytes_eqb k k' then Some None else None
+  | CRename _ _ => None
+  | CFlushdb => Some None
+  end.
+
+Lemma exec_lookup s c k i : wf s -> nr_cmd c = true ->
+  lookup k i (fst (exec s c)) = match touch c k i with Some r => r | None => lookup k i s end.
+Proof.
+  intros Hwf Hnr. pose proof Hwf as [Hs HF]. destruct c as [k' i' v|k' i'|k'|a b|]; cbn in Hnr |- *; try discriminate.
+  - destruct (bytes_eqb k k') eqn:Ek; cbn.
+    + apply bytes_eqb_eq in Ek; subst k'. rewrite lookup_set_same.
+      destruct (bytes_eqb i i') eqn:Ei.
+      * apply bytes_eqb_eq in Ei; subst i'. apply get_set_same.
+      * apply eqb_false_neq in Ei. rewrite get_set_other by exact Ei. unfold lookup. destruct (get k s); reflexivity.
+    + apply eqb_false_neq in Ek. apply lookup_set_other; exact Ek.
+  - destruct (bytes_eqb k k') eqn:Ek; cbn.
+    + apply bytes_eqb_eq in Ek; subst k'.
+      destruct (get k s) as [col|] eqn:E.
+      * pose proof (wf_get _ _ _ Hwf E) as Hcol.
+        destruct (get i' col) eqn:Ei'; cbn.
+        -- assert (Hd : forall j, lookup k j (match del i' col with [] => del k s | _ :: _ => set k (del i' col) s end)
+                                  = get j (del i' col)).
+           { intros j. destruct (del i' col) eqn:Ed; [rewrite lookup_del_same by exact Hs; reflexivity|].
+             rewrite lookup_set_same. reflexivity. }
+           rewrite Hd. destruct (bytes_eqb i i') eqn:Ei.
+           ++ apply bytes_eqb_eq in Ei; subst i'. apply get_del_same; exact Hcol.
+           ++ apply eqb_false_neq in Ei. rewrite get_del_other by exact Ei. unfold lookup. rewrite E. reflexivity.
+        -- destruct (bytes_eqb i i') eqn:Ei; [|reflexivity].
+           apply bytes_eqb_eq in Ei; subst i'. unfold lookup. rewrite E. exact Ei'.
+      * cbn. unfold lookup. rewrite E. destruct (bytes_eqb i i'); reflexivity.
+    + apply eqb_false_neq in Ek.
+      destruct (get k' s) as [col|] eqn:E; [|reflexivity]. destruct (get i' col) eqn:Ei'; [|reflexivity]. cbn.
+      destruct (del i' col); [apply lookup_del_other | apply lookup_set_other]; exact Ek.
+  - destruct (bytes_eqb k k') eqn:Ek.
+    + apply bytes_eqb_eq in Ek; subst k'. destruct (get k s) eqn:E; cbn.
+      * apply lookup_del_same; exact Hs.
+      * unfold lookup. rewrite E. reflexivity.
+    + apply eqb_false_neq in Ek. destruct (get k' s) eqn:E; cbn; [|reflexivity]. apply lookup_del_other; exact Ek.
+  - reflexivity.
+Qed.
+
+Fixpoint last_touch (l : list cmd) (k i : bytes) : option (option val) :=
+  match l with
+  | [] => None
+  | c :: r => match last_touch r k i with Some x => Some x | None => touch c k i end
+  end.
+
+Lemma last_touch_app a b k i :
+  last_touch (a ++ b) k i = match last_touch b k i with Some x => Some x | None => last_touch a k i end.
+Proof.
+  induction a as [|c a IH]; cbn.
+  - destruct (last_touch b k i); reflexivity.
+  - rewrite IH. destruct (last_touch b k i); reflexivity.
+Qed.
+
+Lemma last_touch_none l k i : last_touch l k i = None -> forall c, In c l -> touch c k i = None.
+Proof.
+  induction l as [|c l IH]; cbn; [tauto|]. destruct (last_touch l k i); [discriminate|].
+  intros H c' [<-|Hc]; [exact H | apply IH; [reflexivity | exact Hc]].
+Qed.
+
+Lemma last_touch_some l k i x : last_touch l k i = Some x -> exists c, In c l /\ touch c k i = Some x.
+Proof.
+  induction l as [|c l IH]; cbn; [discriminate|]. destruct (last_touch l k i) eqn:E.
+  - intros H; inversion H; subst. destruct (IH eq_refl) as [c' [H1 H2]]. exists c'. auto.
+  - intros H. exists c. auto.
+Qed.
+
+Lemma replay_app a b s : replay (a ++ b) s = replay b (replay a s).
+Proof. revert s. induction a as [|c a IH]; intros s; cbn; [reflexivity | apply IH]. Qed.
+
+Lemma replay_wf l s : wf s -> wf (replay l s).
+Proof. revert s. induction l as [|c l IH]; intros s H; cbn; [exact H | apply IH, exec_wf; exact H]. Qed.
+
+Lemma replay_lookup l : forall s k i, wf s -> forallb nr_cmd l = true ->
+  lookup k i (replay l s) = match last_touch l k i with Some r => r | None => lookup k i s end.
+Proof.
+  induction l as [|c l IH]; intros s k i Hwf Hnr; cbn; [reflexivity|].
+  cbn in Hnr. apply andb_true_iff in Hnr. destruct Hnr as [Hc Hl].
+  rewrite IH by (try apply exec_wf; assumption).
+  destruct (last_touch l k i); [reflexivity|]. apply exec_lookup; assumption.
+Qed.
+
+Definition is_cset (c : cmd) : Prop := match c with CSet _ _ _ => True | _ => False end.
+
+Lemma cset_nr l : Forall is_cset l -> forallb nr_cmd l = true.
+Proof. induction 1 as [|c l Hc _ IH]; cbn; [reflexivity|]. rewrite IH. destruct c; cbn in *; tauto. Qed.
+
+Lemma touch_cset_some c k i x : is_cset c -> touch c k i = Some x -> exists v, x = Some v /\ c = CSet k i v.
+Proof.
+  destruct c as [k' i' v| | | |]; cbn; try tauto. intros _.
+  destruct (bytes_eqb k k') eqn:Ek; cbn; [|discriminate]. destruct (bytes_eqb i i') eqn:Ei; [|discriminate].
+  apply bytes_eqb_eq in Ek, Ei. subst. intros H; inversion H. exists v. auto.
+Qed.
+
+Lemma touch_cset_same k i v : touch (CSet k i v) k i = Some (Some v).
+Proof. cbn. rewrite !bytes_eqb_refl. reflexivity. Qed.
+
+(* ------------------------------------------------------------------ 3. scans and one step *)
+
+Definition recs (k : bytes) (l : list (bytes * val)) : list cmd := map (fun iv => CSet k (fst iv) (snd iv)) l.
+
+Lemma in_recs c k l : In c (recs k l) -> exists i v, c = CSet k i v /\ In (i, v) l.
+Proof. unfold recs. intros H. apply in_map_iff in H. destruct H as [[i v] [<- H]]. exists i, v. auto. Qed.
+
+Lemma recs_in k l i v : In (i, v) l -> In (CSet k i v) (recs k l).
+Proof. intros H. unfold recs. apply in_map_iff. exists (i, v). auto. Qed.
+
+Lemma recs_cset k l : Forall is_cset (recs k l).
+Proof. rewrite Forall_forall. intros c H. apply in_recs in H. destruct H as [i [v [-> _]]]. exact I. Qed.
+
+Section Steps.
+Variables mk mi : nat.
+
+Lemma keys_scan_spec l : forall acc kd nk, length acc <= mk ->
+  keys_scan mk l acc kd nk =
+  (acc ++ firstn (mk - length acc) l,
+   match skipn (mk - length acc) l with [] => kd | _ :: _ => false end,
+   match skipn (mk - length acc) l with [] => nk | y :: _ => y end).
+Proof.
+  induction l as [|key r IH]; intros acc kd nk Hlen; cbn [keys_scan].
+  - rewrite firstn_nil, skipn_nil, app_nil_r. reflexivity.
+  - destruct (Nat.eqb_spec (length acc) mk) as [E|E].
+    + replace (mk - length acc) with 0 by lia. cbn. rewrite app_nil_r. reflexivity.
+    + rewrite IH by (rewrite app_length; cbn; lia). rewrite app_length. cbn [length].
+      replace (mk - length acc) with (S (mk - (length acc + 1))) by lia. cbn [firstn skipn].
+      rewrite <- app_assoc. reflexivity.
+Qed.
+
+Lemma ids_scan_spec key l : forall count idsdone nid out, count <= mi ->
+  ids_scan mi key l count idsdone nid out =
+  (match skipn (mi - count) l with [] => idsdone | _ :: _ => false end,
+   match skipn (mi - count) l with [] => nid | (y, _) :: _ => y end,
+   out ++ recs key (firstn (mi - count) l)).
+Proof.
+  induction l as [|[id v] r IH]; intros count idsdone nid out Hc; cbn [ids_scan].
+  - rewrite firstn_nil, skipn_nil. cbn. rewrite app_nil_r. reflexivity.
+  - destruct (Nat.eqb_spec count mi) as [E|E].
+    + replace (mi - count) with 0 by lia. cbn. rewrite app_nil_r. reflexivity.
+    + rewrite IH by lia. replace (mi - count) with (S (mi - S count)) by lia. cbn [firstn skipn recs map fst snd].
+      rewrite <- app_assoc. reflexivity.
+Qed.
+
+(* One step, unfolded.  At AtKeys the Go variable keys is empty (shape). *)
+Lemma step_cases live sh :
+  match sh_pos sh with
+  | ScanDone => step mk mi live sh = sh
+  | AtKeys =>
+      sh_keys sh = [] ->
+      let l := keys (ascend_from (sh_nextkey sh) live) in
+      step mk mi live sh =
+        top (firstn mk l) (match skipn mk l with [] => sh_nextkey sh | y :: _ => y end)
+            (match skipn mk l with [] => sh_keysdone sh | _ :: _ => false end) (sh_out sh)
+  | AtIds nid =>
+      match sh_keys sh with
+      | [] => step mk mi live sh = sh
+      | k0 :: rest =>
+          match get k0 live with
+          | None => step mk mi live sh = top rest (sh_nextkey sh) (sh_keysdone sh) (sh_out sh)
+          | Some col =>
+              let l := ascend_from nid col in
+              match skipn mi l with
+              | [] => step mk mi live sh =
+                        top rest (sh_nextkey sh) (sh_keysdone sh) (sh_out sh ++ recs k0 (firstn mi l))
+              | (y, _) :: _ => step mk mi live sh =
+                        mkShrink (sh_keys sh) (sh_nextkey sh) (sh_keysdone sh) (AtIds y)
+                                 (sh_out sh ++ recs k0 (firstn mi l))
+              end
+          end
+      end
+  end.
+Proof.
+  unfold step. destruct (sh_pos sh) as [|nid|].
+  - intros Hk. rewrite Hk. rewrite keys_scan_spec by (cbn; lia). cbn [length app].
+    rewrite Nat.sub_0_r. reflexivity.
+  - destruct (sh_keys sh) as [|k0 rest]; [reflexivity|].
+    destruct (get k0 live) as [col|]; [|reflexivity].
+    cbn zeta. rewrite ids_scan_spec by lia. rewrite Nat.sub_0_r.
+    destruct (skipn mi (ascend_from nid col)) as [|[y w] t]; reflexivity.
+  - reflexivity.
+Qed.
+
+Definition shape (sh : shrink) : Prop :=
+  match sh_pos sh with AtKeys => sh_keys sh = [] | _ => True end.
+
+Lemma top_shape keys nk kd out : shape (top keys nk kd out).
+Proof. unfold top, shape. destruct keys; [destruct kd|]; cbn; auto. Qed.
+
+Lemma top_out keys nk kd out : sh_out (top keys nk kd out) = out.
+Proof. unfold top. destruct keys; [destruct kd|]; reflexivity. Qed.
+
+Lemma shape_init : shape shrink_init.
+Proof. reflexivity. Qed.
+
+Lemma step_shape live sh : shape sh -> shape (step mk mi live sh).
+Proof.
+  intros Hs. pose proof (step_cases live sh) as H. unfold shape in Hs. destruct (sh_pos sh) as [|nid|] eqn:Ep.
+  - rewrite (H Hs). apply top_shape.
+  - destruct (sh_keys sh) as [|k0 rest]; [rewrite H; unfold shape; rewrite Ep; exact I|].
+    destruct (get k0 live) as [col|]; [|rewrite H; apply top_shape].
+    cbn zeta in H. destruct (skipn mi (ascend_from nid col)) as [|[y w] t]; rewrite H; [apply top_shape | exact I].
+  - rewrite H. unfold shape. rewrite Ep. exact I.
+Qed.
+
+(* the records a step adds: objects of the live dataset *)
+Lemma step_out live sh : wf live -> shape sh ->
+  exists new, sh_out (step mk mi live sh) = sh_out sh ++ new /\
+              forall c, In c new -> exists k i v, c = CSet k i v /\ lookup k i live = Some v.
+Proof.
+  intros Hwf Hs. pose proof (step_cases live sh) as H. unfold shape in Hs. destruct (sh_pos sh) as [|nid|] eqn:Ep.
+  - exists []. rewrite (H Hs), top_out, app_nil_r. split; [reflexivity | intros ? []].
+  - destruct (sh_keys sh) as [|k0 rest]; [rewrite H; exists []; rewrite app_nil_r; split; [reflexivity | intros ? []]|].
+    destruct (get k0 live) as [col|] eqn:Eg;
+      [|rewrite H, top_out; exists []; rewrite app_nil_r; split; [reflexivity | intros ? []]].
+    cbn zeta in H. exists (recs k0 (firstn mi (ascend_from nid col))). split.
+    + destruct (skipn mi (ascend_from nid col)) as [|[y w] t]; rewrite H; [apply top_out | reflexivity].
+    + intros c Hc. apply in_recs in Hc. destruct Hc as [i [v [-> Hin]]]. exists k0, i, v. split; [reflexivity|].
+      apply firstn_in, ascend_from_incl in Hin. unfold lookup. rewrite Eg.
+      apply In_get; [eapply wf_get; eauto | exact Hin].
+  - rewrite H. exists []. rewrite app_nil_r. split; [reflexivity | intros ? []].
+Qed.
+
+(* what the rewrite will still visit *)
+Definition pending (k i : bytes) (sh : shrink) : Prop :=
+  match sh_pos sh with
+  | AtKeys => bytes_leb (sh_nextkey sh) k = true
+  | AtIds nid =>
+      match sh_keys sh with
+      | [] => False
+      | k0 :: rest => (k = k0 /\ bytes_leb nid i = true) \/ In k rest \/
+                      (sh_keysdone sh = false /\ bytes_leb (sh_nextkey sh) k = true)
+      end
+  | ScanDone => False
+  end.
+
+Lemma top_pending k i rest nk kd out :
+  In k rest \/ (kd = false /\ bytes_leb nk k = true) -> pending k i (top rest nk kd out).
+Proof.
+  unfold top, pending. destruct rest as [|k1 rest']; [destruct kd|]; cbn.
+  - intros [[]|[H _]]; discriminate.
+  - intros [[]|[_ H]]; exact H.
+  - intros [[H|H]|H]; [left; split; [auto | apply leb_nil] | right; left; exact H | right; right; exact H].
+Qed.
+
+Lemma step_cover live sh k i v : wf live -> shape sh -> lookup k i live = Some v ->
+  In (CSet k i v) (sh_out sh) \/ pending k i sh ->
+  In (CSet k i v) (sh_out (step mk mi live sh)) \/ pending k i (step mk mi live sh).
+Proof.
+  intros Hwf Hs Hl [Hin|Hp].
+  { left. destruct (step_out live sh Hwf Hs) as [new [-> _]]. apply in_app_iff. left; exact Hin. }
+  destruct (lookup_some _ _ _ _ Hl) as [col [Hgk Hgi]].
+  pose proof (step_cases live sh) as H. unfold shape in Hs. unfold pending in Hp.
+  destruct (sh_pos sh) as [|nid|] eqn:Ep; [| |contradiction].
+  - (* keys batch *)
+    specialize (H Hs). cbn zeta in H. rewrite H. right. apply top_pending.
+    set (l := keys (ascend_from (sh_nextkey sh) live)) in *.
+    assert (Hkl : In k l).
+    { unfold l. apply (in_map fst) with (x := (k, col)). apply ascend_from_In; [apply get_In; exact Hgk | exact Hp]. }
+    assert (Hsl : sorted_keys l) by (apply ascend_from_sorted; apply Hwf).
+    destruct (skipn mk l) as [|y t] eqn:Esk.
+    + left. rewrite (skipn_nil_firstn _ _ Esk). exact Hkl.
+    + destruct (sorted_cut_ge l mk y t k Hsl Esk Hkl) as [Hf|Hge]; [left; exact Hf | right; auto].
+  - (* ids batch *)
+    destruct (sh_keys sh) as [|k0 rest] eqn:Ek; [contradiction|].
+    destruct (get k0 live) as [col0|] eqn:Eg0.
+    + cbn zeta in H. set (l := ascend_from nid col0) in *.
+      destruct Hp as [[-> Hge]|Hp].
+      * rewrite Hgk in Eg0. inversion Eg0; subst col0.
+        assert (Hil : In (i, v) l) by (apply ascend_from_In; [apply get_In; exact Hgi | exact Hge]).
+        assert (Hsl : sorted_keys (keys l)) by (apply ascend_from_sorted; eapply wf_get; eauto).
+        destruct (skipn mi l) as [|[y w] t] eqn:Esk; rewrite H.
+        -- left. rewrite top_out. apply in_app_iff. right. apply recs_in.
+           rewrite (skipn_nil_firstn _ _ Esk). exact Hil.
+        -- assert (Esk' : skipn mi (keys l) = y :: keys t) by (unfold keys; rewrite skipn_map, Esk; reflexivity).
+           destruct (sorted_cut_ge (keys l) mi y (keys t) i Hsl Esk' (in_map fst _ _ Hil)) as [Hf|Hge'].
+           ++ left. cbn [sh_out]. apply in_app_iff. right. apply recs_in.
+              unfold keys in Hf. rewrite firstn_map in Hf. apply in_map_iff in Hf. destruct Hf as [[i' v'] [Hi Hf]].
+              cbn in Hi; subst i'. replace v with v'; [exact Hf|].
+              apply firstn_in, ascend_from_incl in Hf. apply In_get in Hf; [congruence | eapply wf_get; eauto].
+           ++ right. unfold pending. cbn [sh_pos sh_keys]. try rewrite Ek. left. auto.
+      * destruct (skipn mi l) as [|[y w] t] eqn:Esk; rewrite H.
+        -- right. apply top_pending. exact Hp.
+        -- right. unfold pending. cbn [sh_pos sh_keys sh_keysdone sh_nextkey]. try rewrite Ek. right. exact Hp.
+    + rewrite H. right. apply top_pending. destruct Hp as [[-> _]|Hp]; [congruence | exact Hp].
+Qed.
+
+(* ------------------------------------------------------------------ 4. T1 / T2 *)
+
+Definition nr_ev (e : ev) : bool := negb (is_rename e).
+
+Record inv1 (s0 : st) (r : run) : Prop := {
+  i_wf : wf (r_live r);
+  i_nr : forallb nr_cmd (r_log r) = true;
+  i_live : forall k i, lookup k i (r_live r) =
+             match last_touch (r_log r) k i with Some x => x | None => lookup k i s0 end;
+  i_shape : shape (r_sh r);
+  i_cset : Forall is_cset (sh_out (r_sh r));
+  i_sound : forall k i v, last_touch (r_log r) k i = None ->
+             In (CSet k i v) (sh_out (r_sh r)) -> lookup k i s0 = Some v;
+  i_cover : forall k i v, last_touch (r_log r) k i = None -> lookup k i s0 = Some v ->
+             In (CSet k i v) (sh_out (r_sh r)) \/ pending k i (r_sh r)
+}.
+
+Lemma inv1_init s0 : wf s0 -> inv1 s0 (run_init s0).
+Proof.
+  intros Hwf. constructor; cbn; auto.
+  - intros k i v _ []. 
+  - intros k i v _ _. right. unfold pending; cbn. apply leb_nil.
+Qed.
+
+Lemma inv1_step s0 r e : nr_ev e = true -> inv1 s0 r -> inv1 s0 (do_ev mk mi r e).
+Proof.
+  intros Hnr [Hwf Hlog Hlive Hsh Hcs Hsound Hcover]. destruct e as [c|]; cbn [do_ev].
+  - (* writer *)
+    assert (Hc : nr_cmd c = true) by (destruct c; cbn in *; congruence).
+    pose proof (exec_wf (r_live r) c Hwf) as Hwf'.
+    pose proof (exec_lookup (r_live r) c) as Hel.
+    pose proof (exec_not_logged (r_live r) c) as Hnl.
+    destruct (exec (r_live r) c) as [s' o]. cbn [fst snd] in *.
+    destruct (logged o) eqn:Elog.
+    + constructor; cbn [r_live r_sh r_log]; auto.
+      * rewrite forallb_app, Hlog. cbn. rewrite Hc. reflexivity.
+      * intros k i. rewrite last_touch_app. cbn [last_touch]. rewrite Hel by assumption.
+        destruct (touch c k i); [reflexivity | apply Hlive].
+      * intros k i v Hlt. rewrite last_touch_app in Hlt. cbn [last_touch] in Hlt.
+        destruct (touch c k i); [discriminate|]. apply Hsound; exact Hlt.
+      * intros k i v Hlt. rewrite last_touch_app in Hlt. cbn [last_touch] in Hlt.
+        destruct (touch c k i); [discriminate|]. apply Hcover; exact Hlt.
+    + rewrite (Hnl eq_refl) in *. constructor; cbn [r_live r_sh r_log]; auto.
+  - (* a locked section of the rewrite *)
+    destruct (step_out (r_live r) (r_sh r) Hwf Hsh) as [new [Hout Hnew]].
+    constructor; cbn [r_live r_sh r_log]; auto.
+    + apply step_shape; exact Hsh.
+    + rewrite Hout. apply Forall_app. split; [exact Hcs|]. rewrite Forall_forall. intros c Hc.
+      destruct (Hnew c Hc) as [k [i [v [-> _]]]]. exact I.
+    + intros k i v Hlt Hin. rewrite Hout in Hin. apply in_app_iff in Hin. destruct Hin as [Hin|Hin].
+      * apply Hsound; assumption.
+      * destruct (Hnew _ Hin) as [k' [i' [v' [Heq Hl]]]]. inversion Heq; subst k' i' v'.
+        rewrite Hlive, Hlt in Hl. exact Hl.
+    + intros k i v Hlt Hl. apply step_cover; auto.
+      rewrite Hlive, Hlt. exact Hl.
+Qed.
+
+Lemma inv1_run s0 sched : forall r, forallb nr_ev sched = true -> inv1 s0 r -> inv1 s0 (run_sched mk mi sched r).
+Proof.
+  unfold run_sched. induction sched as [|e sched IH]; intros r Hnr Hinv; cbn; [exact Hinv|].
+  cbn in Hnr. apply andb_true_iff in Hnr. destruct Hnr as [He Hs]. apply IH; [exact Hs|]. apply inv1_step; assumption.
+Qed.
+
+Lemma pending_done k i sh : sh_done sh = true -> ~ pending k i sh.
+Proof. unfold sh_done, pending. destruct (sh_pos sh); try discriminate. tauto. Qed.
+
+Lemma inv1_done s0 r : inv1 s0 r -> sh_done (r_sh r) = true -> same_data (replay (newfile r) []) (r_live r).
+Proof.
+  intros [Hwf Hlog Hlive Hsh Hcs Hsound Hcover] Hdone k i.
+  unfold newfile. rewrite replay_lookup; [|exact wf_nil|rewrite forallb_app, Hlog, (cset_nr _ Hcs); reflexivity].
+  rewrite last_touch_app, Hlive, lookup_nil.
+  destruct (last_touch (r_log r) k i) as [x|] eqn:Elt; [reflexivity|].
+  destruct (last_touch (sh_out (r_sh r)) k i) as [x|] eqn:Eo.
+  - destruct (last_touch_some _ _ _ _ Eo) as [c [Hc Ht]].
+    rewrite Forall_forall in Hcs. destruct (touch_cset_some c k i x (Hcs c Hc) Ht) as [v [-> ->]].
+    symmetry. apply Hsound; assumption.
+  - destruct (lookup k i s0) as [v|] eqn:El; [|reflexivity]. exfalso.
+    destruct (Hcover k i v Elt El) as [Hin|Hp]; [|eapply pending_done; eauto].
+    pose proof (last_touch_none _ _ _ Eo _ Hin) as Ht. rewrite touch_cset_same in Ht. discriminate.
+Qed.
+
+Theorem concurrent_partial s0 sched : wf s0 -> no_rename sched = true ->
+  let r := run_sched mk mi sched (run_init s0) in
+  sh_done (r_sh r) = true -> same_data (replay (newfile r) []) (r_live r).
+Proof.
+  intros Hwf Hnr r Hdone. apply (inv1_done s0); [|exact Hdone].
+  apply inv1_run; [exact Hnr | apply inv1_init; exact Hwf].
+Qed.
+
+Lemma no_rename_steps n : no_rename (repeat Step n) = true.
+Proof. induction n; cbn; auto. Qed.
+
+Lemma run_steps_live n : forall r, r_live (run_sched mk mi (repeat Step n) r) = r_live r /\
+                                  r_log (run_sched mk mi (repeat Step n) r) = r_log r.
+Proof. unfold run_sched. induction n as [|n IH]; intros r; cbn [repeat fold_left]; [auto|]. destruct (IH (do_ev mk mi r Step)) as [-> ->]. cbn. auto. Qed.
+
+Theorem quiescent s n : wf s ->
+  let r := run_sched mk mi (repeat Step n) (run_init s) in
+  sh_done (r_sh r) = true -> same_data (replay (newfile r) []) s.
+Proof.
+  intros Hwf r Hdone. pose proof (concurrent_partial s (repeat Step n) Hwf (no_rename_steps n) Hdone) as H.
+  fold r in H. unfold r in H at 2. rewrite (proj1 (run_steps_live n _)) in H. exact H.
+Qed.
+
+End Steps.
+
+(* ------------------------------------------------------------------ boolean checker for wf *)
+
+Fixpoint sortedb (l : list bytes) : bool :=
+  match l with [] => true | x :: r => forallb (bytes_ltb x) r && sortedb r end.
+
+Lemma sortedb_ok l : sortedb l = true -> sorted_keys l.
+Proof.
+  induction l as [|x r IH]; cbn; intros H; [constructor|].
+  apply andb_true_iff in H. destruct H as [H1 H2]. constructor; [apply IH; exact H2|].
+  rewrite Forall_forall. rewrite forallb_forall in H1. exact H1.
+Qed.
+
+Definition wfb (s : st) : bool := sortedb (keys s) && forallb (fun kc => sortedb (keys (snd kc))) s.
+
+Lemma wfb_ok s : wfb s = true -> wf s.
+Proof.
+  unfold wfb, wf. intros H. apply andb_true_iff in H. destruct H as [H1 H2]. split; [apply sortedb_ok; exact H1|].
+  rewrite Forall_forall. rewrite forallb_forall in H2. intros kc Hkc. apply sortedb_ok. apply H2; exact Hkc.
+Qed.
+
+(* ------------------------------------------------------------------ 6. T3: RENAME refutations *)
+
+Definition b1 (n : N) : bytes := [n].
+
+(* nine collections b..i and m, each {1 -> x} *)
+Definition s0_lost : st :=
+  map (fun n => (b1 n, [(b1 49, b1 120)])) [98; 99; 100; 101; 102; 103; 104; 105; 109]%N.
+
+(* first keys batch = b..i with nextkey = m; then m is renamed to a, before the cursor *)
+Definition sched_lost : list ev := [Step; W (CRename (b1 109) (b1 97))] ++ repeat Step 12.
+
+Theorem rename_refuted :
+  exists s0 sched, wf s0 /\ sh_done (r_sh (run_sched maxkeys maxids sched (run_init s0))) = true /\
+    exists k i, lookup k i (replay (newfile (run_sched maxkeys maxids sched (run_init s0))) []) <>
+                lookup k i (r_live (run_sched maxkeys maxids sched (run_init s0))).
+Proof.
+  exists s0_lost, sched_lost. split; [apply wfb_ok; vm_compute; reflexivity|].
+  split; [vm_compute; reflexivity|]. exists (b1 97), (b1 49). vm_compute. discriminate.
+Qed.
+
+(* A -> {1 -> x}; RENAME A B and SET A 1 y are logged before the first keys batch *)
+Definition s0_dup : st := [(b1 65, [(b1 49, b1 120)])].
+Definition sched_dup : list ev := [W (CRename (b1 65) (b1 66)); W (CSet (b1 65) (b1 49) (b1 121))] ++ repeat Step 6.
+
+Theorem rename_dup_refuted :
+  exists s0 sched, wf s0 /\ sh_done (r_sh (run_sched maxkeys maxids sched (run_init s0))) = true /\
+    exists k i, lookup k i (replay (newfile (run_sched maxkeys maxids sched (run_init s0))) []) <>
+                lookup k i (r_live (run_sched maxkeys maxids sched (run_init s0))).
+Proof.
+  exists s0_dup, sched_dup. split; [apply wfb_ok; vm_compute; reflexivity|].
+  split; [vm_compute; reflexivity|]. exists (b1 66), (b1 49). vm_compute. discriminate.
+Qed.
+
+(* ------------------------------------------------------------------ 7. T4: crash points *)
+
+Definition crash_hyp (fi : final_in) : Prop :=
+  same_data (replay (f_snap fi ++ f_slog fi) []) (replay (f_live fi ++ f_pend fi) []).
+
+Lemma same_data_refl a : same_data a a.
+Proof. intros k i; reflexivity. Qed.
+
+Theorem crash_points fi c : crash_hyp fi ->
+  let d := recover_dir (crash_at fi c) in
+  same_data d (replay (f_live fi) []) \/ same_data d (replay (f_live fi ++ f_pend fi) []).
+Proof.
+  intros H. destruct c; unfold crash_at, dir_start, recover_dir; cbn;
+    first [ left; apply same_data_refl | right; apply same_data_refl | right; exact H ].
+Qed.
+
+Theorem crash_orig_partial fi c : c <> CP_after_rename_bak -> crash_hyp fi ->
+  let d := recover_dir_orig (crash_at fi c) in
+  same_data d (replay (f_live fi) []) \/ same_data d (replay (f_live fi ++ f_pend fi) []).
+Proof.
+  intros Hc H. destruct c; try congruence; unfold crash_at, dir_start, recover_dir_orig; cbn;
+    first [ left; apply same_data_refl | right; apply same_data_refl | right; exact H ].
+Qed.
+
+Definition fi_small : final_in :=
+  mkFinal [CSet (b1 97) (b1 49) (b1 120)] [] [CSet (b1 97) (b1 49) (b1 120)] [].
+
+Theorem crash_orig_refuted :
+  exists fi, crash_hyp fi /\ (exists k i v, lookup k i (replay (f_live fi) []) = Some v) /\
+             recover_dir_orig (crash_at fi CP_after_rename_bak) = [].
+Proof.
+  exists fi_small. split; [intros k i; reflexivity|]. split; [|reflexivity].
+  exists (b1 97), (b1 49), (b1 120). vm_compute. reflexivity.
+Qed.
